@@ -212,12 +212,12 @@ def gen_patch(r, t, kind, depth=0, ood=0.0):
             continue
         pk = case_key(r, k, kind)
         if isinstance(v, dict):
-            p[pk] = {"__delete__": True} if r.random() < 0.2 else gen_patch(r, v, kind, depth + 1, ood)
+            p[pk] = delete_flag(r) if r.random() < 0.2 else gen_patch(r, v, kind, depth + 1, ood)
         elif isinstance(v, list) and v and all(isinstance(i, dict) for i in v):
             lst = []
             for item in v:
                 y = r.random()
-                lst.append(None if y < 0.3 else {"__delete__": True} if y < 0.45 else gen_patch(r, item, kind, depth + 1, ood))
+                lst.append(None if y < 0.3 else delete_flag(r) if y < 0.45 else gen_patch(r, item, kind, depth + 1, ood))
             for _ in range(r.randint(0, 2)):
                 lst.append(gen_patch(r, {}, kind, depth + 1, ood))
             if r.random() < 0.15:
@@ -296,6 +296,11 @@ def fresh_strings(x):
             else:
                 fresh_strings(v)
     return x
+
+
+def delete_flag(r):
+    """The dict form of the delete marker: usually {"__delete__": True}; any truthy flag counts."""
+    return {"__delete__": True if r.random() < 0.75 else r.choice([1, "yes", 1.0, "true", 7])}
 
 
 def gen_objlist(r, containers=False):
@@ -406,7 +411,7 @@ def run(ctx):
             ood = 0.15 if r.random() < 0.1 else 0.0
             p = gen_patch(r, t, kind, 0, ood)
             if r.random() < 0.01:
-                p = {"__delete__": True}
+                p = delete_flag(r)
             if i % 2:
                 fresh_strings(p)
                 res.count("patches_with_non_literal_strings")
